@@ -118,7 +118,7 @@ def list_bases(ctx, rnd):
         for v in sorted(os.listdir(CORPUS)):
             if os.path.isdir(os.path.join(CORPUS, v)):
                 bases.append({"base": "corpus:" + v})
-    ngen = 6 if ctx.quick else 40
+    ngen = 6 if ctx.quick else 20
     for i in range(ngen):
         bases.append({"base": "gen", "gseed": ctx.seed * 1000 + i, "endian": "be" if i % 3 == 2 else "le"})
     return bases
@@ -146,7 +146,41 @@ def mutation_recipe(b, rnd, i):
                  for _ in range(rnd.choice([2, 3, 4]))]
     rec = dict(b)
     rec.update({"sys": "robust", "seed": rnd.randrange(1 << 40), "mut": kinds, "id": "m:%s:%d" % (bkey(b), i)})
+    if rnd.random() < 0.1:      # the other byte order
+        rec["endian"] = "le" if rec.get("endian") == "be" else "be"
     return rec
+
+
+def targeted_recipes():
+    """Deterministic small inputs for shapes that random mutation reaches only sometimes."""
+    out = []
+    # .debug_aranges, address size 4: a tuple whose begin + length overflows, then a valid tuple
+    hdr = [2, 0] + u32(0) + [4, 0] + [0, 0, 0, 0]
+    tup = u32(0xfffffff0) + u32(0x20) + u32(0x1000) + u32(0x10) + u32(0) + u32(0)
+    out.append({"sys": "robust", "base": "raw", "seed": 21, "id": "tg:aranges-overflow", "only": ["aranges"],
+                "sections": {"debug_aranges": u32(len(hdr) + len(tup)) + hdr + tup}, "mut": []})
+    # .eh_frame_hdr: version 1, eh_frame_ptr udata4, fde_count udata4 = 1000, table sdata4|datarel, one row only
+    out.append({"sys": "robust", "base": "raw", "seed": 22, "id": "tg:ehhdr-count", "only": ["eh_frame_hdr"],
+                "sections": {"eh_frame_hdr": [1, 0x03, 0x03, 0x3b] + u32(0x100) + u32(1000) + u32(0x10) + u32(0x20)}, "mut": []})
+    # the same with fde_count udata8 = 2^63 and an out-of-range eh_frame pointer
+    out.append({"sys": "robust", "base": "raw", "seed": 23, "id": "tg:ehhdr-huge", "only": ["eh_frame_hdr"],
+                "sections": {"eh_frame_hdr": [1, 0x04, 0x04, 0x04] + [0xff] * 8 + [0, 0, 0, 0, 0, 0, 0, 0x80] + [1] * 16}, "mut": []})
+    # .debug_macinfo without terminator; .debug_macro (v5 header, flags 0) with one entry and no terminator
+    out.append({"sys": "robust", "base": "raw", "seed": 24, "id": "tg:macinfo-unterminated", "only": ["macros"],
+                "sections": {"debug_macinfo": [1, 5, ord("A"), 0, 3, 1, 2]}, "mut": []})
+    out.append({"sys": "robust", "base": "raw", "seed": 25, "id": "tg:macro-unterminated", "only": ["macros"],
+                "sections": {"debug_macro": [5, 0, 0, 1, 5, ord("A"), 0]}, "mut": []})
+    # index scaling: the getters are called with extreme indices on a tiny section
+    out.append({"sys": "robust", "base": "raw", "seed": 26, "id": "tg:index-scaling", "only": ["strings", "lists"],
+                "sections": {"debug_str_offsets": [8, 0, 0, 0, 5, 0, 0, 0, 1, 0, 0, 0], "debug_addr": [12, 0, 0, 0, 5, 0, 8, 0, 1, 2, 3, 4, 5, 6, 7, 8],
+                             "debug_rnglists": [12, 0, 0, 0, 5, 0, 8, 0, 1, 0, 0, 0, 4, 0, 0, 0], "debug_loclists": [12, 0, 0, 0, 5, 0, 8, 0, 1, 0, 0, 0, 4, 0, 0, 0]}, "mut": []})
+    # .debug_cu_index (version 2): 2 slots, both occupied, so a lookup of a third id must stop after 2 probes
+    def u64(x):
+        return u32(x & 0xffffffff) + u32(x >> 32)
+    ix = u32(2) + u32(1) + u32(1) + u32(2) + u64(0x1111111111111111) + u64(0x2222222222222222) + u32(1) + u32(1) + u32(1) + u32(0) + u32(16)
+    out.append({"sys": "robust", "base": "raw", "seed": 27, "id": "tg:index-full", "only": ["index", "dwp"],
+                "sections": {"debug_cu_index": ix, "debug_tu_index": ix}, "mut": []})
+    return out
 
 
 def deep_recipes():
@@ -214,6 +248,7 @@ def run(ctx):
     rnd = random.Random(ctx.seed)
     bins = {p: ctx.build("gvh-robust", p) for p in ("dev", "release")}
     par = max(1, min(4, ctx.workers))
+    watchdog = int(os.environ.get("C01_WATCHDOG", "120"))   # seconds without progress before a recipe counts as hung
     pool = ThreadPoolExecutor(max_workers=par)
 
     # ---- the protocol spec, model-checked (in the background)
@@ -237,7 +272,7 @@ def run(ctx):
         r = dict(b)
         r.update({"sys": "robust", "seed": 1, "mut": [], "id": "p:" + bkey(b)})
         probes.append(r)
-    pobs = sharded_replay(ctx, bins["release"], probes, "probe", par, pool, timeout=120)
+    pobs = sharded_replay(ctx, bins["release"], probes, "probe", par, pool, timeout=watchdog)
     live = []
     for b, o in zip(bases, pobs):
         if o is None or o.get("skipped"):
@@ -246,17 +281,19 @@ def run(ctx):
         live.append(b)
     bases = live
     small = [b for b in bases if sum(b["lens"].values()) <= 6000]
+    small.sort(key=lambda b: sum(b["lens"].values()))
+    every_bases = [b for b in small if b["base"] == "gen"][: (1 if q else 8)]
     # operation counts of the interposed reader, per base and group set
     fprobes = []
-    fault_bases = [b for b in small if b["base"] == "gen"][: (2 if q else 12)] + \
-                  [b for b in small if b["base"] != "gen"][: (1 if q else 8)]
+    fault_bases = [b for b in small if b["base"] == "gen"][: (2 if q else 7)] + \
+                  [b for b in small if b["base"] != "gen"][: (1 if q else 3)]
     for b in fault_bases:
         for gs in FAULT_SETS:
             r = {k: v for k, v in b.items() if k != "lens"}
             r.update({"sys": "robust", "seed": 5, "mut": [], "reader": "faulty", "fail_at": None, "only": gs,
                       "id": "fp:%s:%s" % (bkey(b), gs[0])})
             fprobes.append(r)
-    fobs = sharded_replay(ctx, bins["release"], fprobes, "fprobe", par, pool, timeout=120)
+    fobs = sharded_replay(ctx, bins["release"], fprobes, "fprobe", par, pool, timeout=watchdog)
     log("[c01] probes done: %d bases, %d fault probes (%.1fs)" % (len(bases), len(fprobes), time.time() - ctx.t0))
 
     # ---- round 2: the recipes
@@ -265,18 +302,18 @@ def run(ctx):
         bb = {k: v for k, v in b.items() if k != "lens"}
         total = sum(b["lens"].values())
         big = total > 60000
-        nm = {"self": 40 if q else 1500}.get(b["base"], (30 if q else 800) if not big else (20 if q else 500))
+        nm = {"self": 12 if q else 600, "gen": 30 if q else 300}.get(b["base"], (12 if q else 300) if not big else (10 if q else 300))
         for i in range(nm):
             recipes.append(mutation_recipe(bb, rnd, i))
         # both byte orders on the generated bases, reader through the interposer on a sample
-        for i in range(3 if q else 60):
+        for i in range(3 if q else 30):
             r = mutation_recipe(bb, rnd, 100000 + i)
             r["reader"] = "faulty"
             r["fail_at"] = rnd.randrange(1 << 30)
             recipes.append(r)
         # truncation: every byte of every section of the small bases (quick: two generated
         # bases every byte, the others sampled), sampled positions for the large ones
-        every = (not q and total <= 6000) or (q and b in fault_bases[:1])
+        every = b in every_bases
         for sec, n in sorted(b["lens"].items()):
             gs = groups_for(sec)
             if not gs or n == 0:
@@ -284,7 +321,7 @@ def run(ctx):
             if every:
                 cuts = list(range(n))
             else:
-                k = min(n, (4 if q else 60) if not big else (3 if q else 40))
+                k = min(n, (4 if q else 40) if not big else (3 if q else 30))
                 cuts = sorted(set(rnd.randrange(n) for _ in range(k)))
             for at in cuts:
                 r = dict(bb)
@@ -296,7 +333,7 @@ def run(ctx):
         n = (o or {}).get("ops") or 0
         if not n:
             continue
-        cap = 40 if q else 100000
+        cap = 40 if q else 300
         ks = range(n) if n <= cap else sorted(set(rnd.randrange(n) for _ in range(cap)))
         for k in ks:
             r = dict(r0)
@@ -304,6 +341,7 @@ def run(ctx):
             recipes.append(r)
     recipes += exhaustive_recipes(ctx)
     recipes += deep_recipes()
+    recipes += targeted_recipes()
     # every small raw family also through the faulty reader at every operation
     for name, secs, sec, patch, only in raw_families():
         for tail in ([0x10, 0x80, 0x01], [0x03, 1, 2, 3, 4, 5, 6, 7, 8], [0x0f, 2, 0x91, 0x7f, 0x40], [0, 9, 2, 1, 2, 3, 4, 5, 6, 7, 8, 0x21]):
@@ -316,8 +354,8 @@ def run(ctx):
     rnd.shuffle(recipes)
     # slow recipes first within a shard does not matter; keep deterministic order
     t0 = time.time()
-    f_dev = pool.submit(sharded_replay, ctx, bins["dev"], recipes, "dev", max(1, par // 2), ThreadPoolExecutor(max_workers=par), 120)
-    f_rel = pool.submit(sharded_replay, ctx, bins["release"], recipes, "rel", max(1, par // 2), ThreadPoolExecutor(max_workers=par), 120)
+    f_dev = pool.submit(sharded_replay, ctx, bins["dev"], recipes, "dev", max(1, par // 2), ThreadPoolExecutor(max_workers=par), watchdog)
+    f_rel = pool.submit(sharded_replay, ctx, bins["release"], recipes, "rel", max(1, par // 2), ThreadPoolExecutor(max_workers=par), watchdog)
     obs = {"dev": f_dev.result(), "release": f_rel.result()}
     ctx.cov["replay_wall_s"] = round(time.time() - t0, 1)
     log("[c01] replayed %d recipes in both profiles: %.1fs" % (len(recipes), time.time() - t0))
@@ -459,6 +497,29 @@ def run(ctx):
             meta2.append((prof, byb[b][1], k))
     if ev2:
         report(validate(ev2, meta2, "b"), meta2)
+
+    # ---- corrupted-trace control (thorough tier): accepted events, minimally corrupted, must be rejected
+    if not q or os.environ.get("C01_CONTROL"):
+        rejected_idx = set(ei for ei, _ in rej1)
+        bad = [{"ev": "Case", "id": "control"}]
+        want = []
+        for ei, e in enumerate(events):
+            if ei in rejected_idx or e.get("ev") != "Iter":
+                continue
+            kinds = [r[0] for r in e["runs"]]
+            if not e["fused"] and "err" in kinds and "some" in kinds[kinds.index("err"):] and "fused" not in want:
+                bad.append(dict(e, fused=True)); want.append("fused")
+            nn = sum(r[1] for r in e["runs"] if r[0] != "none")
+            if nn > 2 and "bound" not in want:
+                bad.append(dict(e, bound=nn - 1 - e["slack"])); want.append("bound")
+            if "none" in kinds and "nonone" not in want and len(kinds) > 1:
+                bad.append(dict(e, runs=[r for r in e["runs"] if r[0] != "none"])); want.append("nonone")
+        bad.append({"ev": "Abnormal", "api": "control", "outcome": "panic", "loc": "control", "msg": ""}); want.append("abnormal")
+        got = validate(bad, [("control", None, None)] * len(bad), "ctl")
+        ctx.cov["traces_validated_against_impl"] -= len(bad) - len(got)
+        ctx.cov["corrupted_trace_control"] = {"corrupted": want, "rejected": [d["why"] for _, d in got]}
+        if len(got) != len(bad) - 1:
+            raise ToolError("corrupted-trace control: TLC rejected %d of %d corrupted events" % (len(got), len(bad) - 1))
 
     # ---- model checking results
     mt.join()
